@@ -1238,6 +1238,40 @@ theorem seq_step_no_clause (c : B64) (hc : c.Lawful) {w : World} {m : SeqMon} (h
             rw [gen_monitor_accepts_model c hc ps a _ (List.Perm.refl _)]
           · simp only [callModel, hq]
 
+  | setToolB n p => rfl
+  | delToolB n => rfl
+  | callB n a =>
+    simp only [stepW, seqMonStep]
+    rw [h.serverB, h.proto]
+    rcases callWith_quiet c { w with server := w.serverB } (toolDef w.serverB n) n a with hq | ⟨code, hq⟩
+    all_goals
+      cases hs : toolDef w.serverB n with
+      | none =>
+        simp only [callModelB, hs] at hq ⊢
+        simp only [hq]
+      | some ps =>
+        simp only []
+        cases hp : w.newProto with
+        | false =>
+          have : callModelB c w n a = ([], .okSame) := by
+            unfold callModelB callWith
+            simp [hp, hs]
+          simp [this]
+        | true =>
+          simp only [if_true]
+          split
+          · rename_i hcnd
+            simp only [Bool.and_eq_true] at hcnd
+            obtain ⟨htv, hav⟩ := hcnd
+            have hcall : callModelB c w n a = (generateParamHeaders c ps a, .okSame) :=
+              other_server_call_agrees c hc w hp hs a ((toolValidB_iff ps).mp htv).2
+                (argsValidDoc_prim ((argsValidB_iff ps a).mp hav))
+            rw [hcall]
+            simp only [bne_self_eq_false, Bool.false_eq_true, if_false]
+            rw [gen_monitor_accepts_model c hc ps a _ (List.Perm.refl _)]
+          · simp only [callModelB, hs] at hq ⊢
+            simp only [hq]
+
 /-- **seq.**  For every lawful codec, every configuration and EVERY list of operations with arbitrary clocks, the monitor
 run in lockstep on the model's observations raises no clause. -/
 theorem seq_run_no_clause (c : B64) (hc : c.Lawful) (ops : List (Nat × SeqOp)) :
